@@ -8,7 +8,7 @@ handing their span to unspanned leaves (dataflow on into_vec); the syn::Error co
 Not decided: that the span is the right token range (a run-time observation)."""
 import re
 
-from vlib import mir, scan, tpl, derived
+from vlib import resalg, mir, scan, tpl, derived
 from . import common
 
 META = dict(
@@ -58,6 +58,33 @@ def _spliced_only_into_allowed(ctx, core, b, ctor):
     return bool(callers) and all((c, ctor) in TEMPLATE_ALLOW for c in callers)
 
 
+def first_writer_wins(ctx, f, writes, what, new_value_rx):
+    """Every write to self.span either happens where the span is still None, or stores the value it
+    already had — `if self.span.is_none() { self.span = Some(s) }` and
+    `self.span = self.span.or(Some(s))` are the same statement."""
+    IDENT = ("self.span", "core::option::Option::Some{(self.span as Some).0}")
+    for blk, i, st in writes:
+        pcs = ctx.pc_strs(f, blk) or [set()]
+        rows = resalg.expr_cases(ctx, f, st["r"])
+        ok = bool(rows)
+        seen_new = False
+        detail = []
+        for d in pcs:
+            for conds, v in rows:
+                both = set(d) | set(conds)
+                if "is_some(self.span)=True" in both and "is_some(self.span)=False" in both:
+                    continue
+                detail.append((sorted(both), v[:120]))
+                if "is_some(self.span)=False" in both:
+                    if re.search(new_value_rx, v):
+                        seen_new = True
+                    else:
+                        ok = False
+                elif v not in IDENT:
+                    ok = False
+        ctx.ob("C03.G.first-writer-wins", f.key, what, ok and seen_new, "a write that can run while a span is present must keep it: %s" % detail)
+
+
 def runtime_bodies(ctx, core):
     return [b for b in ctx.all_bodies(core) if not common.derive_file(b) and not scan.is_test_body(b) and not b.derived]
 
@@ -94,18 +121,14 @@ def run(ctx):
     if f:
         asg = ctx.find_field_assigns(f, "span", 1)
         ctx.ob("C03.G.with-span-shape", f.key, "one assignment to self.span", len(asg) == 1, "%d assignments" % len(asg))
-        for blk, i, st in asg:
-            ctx.requires("C03.G.first-writer-wins", f, blk, "self.span = Some(node.span())", [r"^is_some\(self\.span\)=False$"])
-            e = ctx.expr(f, st["r"])
-            ctx.ob("C03.G.with-span-value", f.key, "value", bool(re.search(r"Some\{.*Spanned(>)?::span\(a2\)\}", e)), "assigns %s" % e)
+        first_writer_wins(ctx, f, asg, "self.span = Some(node.span())", r"Some\{[^{}]*Spanned(>)?::span\(a2\)\}$")
     f = ctx.fn(E + "has_span")
     if f:
         rs = ctx.ret_values(f)
         ctx.ob("C03.G.has-span-def", f.key, "return", rs == ["is_some(self.span)"], "returns %s" % rs)
     f = ctx.fn("darling_core::ast::data::Fields::<T>::with_span")
     if f:
-        for blk, i, st in ctx.find_field_assigns(f, "span", 1):
-            ctx.requires("C03.G.first-writer-wins", f, blk, "Fields.span = Some(span)", [r"is_some\(self\.span\)=False"])
+        first_writer_wins(ctx, f, ctx.find_field_assigns(f, "span", 1), "Fields.span = Some(span)", r"Some\{a2\}$")
     # who may write Error.span
     writers = set()
     for b in allb:
